@@ -89,7 +89,9 @@ def shard_positions(prop: str, tier: str, seed: int, name: str) -> dict[str, Any
     for sd in ({"style": "fifo", "d": [], "R": 2},
                {"style": "hold", "d": [], "R": 2, "hold": "SkipStage", "hold_for": 6},
                {"style": "hold", "d": [], "R": 2, "hold": "CompleteTask", "hold_for": 4},
-               {"style": "hold", "d": [], "R": 2, "hold": "JumpToStage", "hold_for": 5}):
+               {"style": "hold", "d": [], "R": 2, "hold": "JumpToStage", "hold_for": 5},
+               # the sweep runs before StartWorkflow has been handled, and what it queues overtakes the StartWorkflow
+               {"style": "hold", "d": [], "R": 2, "hold": "StartWorkflow", "hold_for": 30}):
         for at in range(n + 1):
             for times in (1, 2):
                 if sd["style"] != "fifo" and times == 2:
